@@ -254,6 +254,9 @@ package loader
 // returns a fresh, one-hop-longer tracker or an error) whose last hop is this service, so a chain of
 // extends cannot grow without the tracker growing. (The relation to the length at entry is not stated:
 // getExtendsBaseFromFile sits in between and its frame is the static MOD over-approximation.)
+// C05 "a missing base is an error": the recursion into a base of the SAME file is only made for a service that
+// file declares (for a base in another file the loaded services mapping is checked by getExtendsBaseFromFile)
+//@   callsite[C05] loader.applyServiceExtends : isNil(file) ==> has(services, name)
 //@   callsite[C01,C05] loader.applyServiceExtends : fresh(tracker) && tracker.loaded[len(tracker.loaded) - 1].service == caller_name
 //@   ensures[C01,C05] err != nil ==> result.0 == nil
 //@   ensures[C01,C05] err == nil ==> result.0 == nil || isMap(result.0)
